@@ -175,11 +175,9 @@ def selMatches (o : Oracles) (ao : AggOracles) (c : Ctx) (d : TraceDb) (s : Sele
      | some a => (match aggCmpText a with | .ok lit => aggHolds o ao c d a lit sps | .error _ => false))
 
 /-- the fragment of selectors the correctness theorem covers: conditions present, at most 64 distinct ones
-    (one bit each), distinct conditions have distinct texts, and an aggregate other than `count` names
-    what it aggregates -/
+    (one bit each), distinct conditions have distinct texts -/
 structure SelOk (s : Selector) : Prop where
   attrs : ∃ e, s.attrs = some e ∧ KeyInj (termsOf e) ∧ (analyzeCond [] e).1.length ≤ 64
-  agg : ∀ a, s.agg = some a → a.fn ≠ .count → a.attr ≠ ""
 
 /-! ### scripts: `&&` binds tighter than `||` -/
 def groups : Script → List (List Selector)
